@@ -59,7 +59,7 @@ Definition Registered (p : list op) (i : nat) (c : entry) : Prop :=
 
 (* ---------- silenced, on the history ---------- *)
 Definition is_enter (o : op) : bool := match o with SilentEnter => true | _ => false end.
-Definition is_exit (o : op) : bool := match o with SilentExit => true | _ => false end.
+Definition is_exit (o : op) : bool := match o with SilentExit | SilentExitExc => true | _ => false end.
 (* number of silent() blocks entered and not yet left *)
 Definition open_contexts (p : list op) : nat :=
   (length (filter is_enter p) - length (filter is_exit p))%nat.
@@ -75,7 +75,7 @@ Fixpoint silent_ok_from (d : nat) (p : list op) : bool :=
   | [] => true
   | SetSilent _ :: r => (d =? 0)%nat && silent_ok_from d r
   | SilentEnter :: r => silent_ok_from (S d) r
-  | SilentExit :: r => match d with O => false | S d' => silent_ok_from d' r end
+  | SilentExit :: r | SilentExitExc :: r => match d with O => false | S d' => silent_ok_from d' r end
   | _ :: r => silent_ok_from d r
   end.
 Definition silent_ok (p : list op) : bool := silent_ok_from 0 p.
@@ -202,7 +202,7 @@ Fixpoint brackets_ok_from (d : nat) (p : list op) : bool :=
   match p with
   | [] => true
   | SilentEnter :: r => brackets_ok_from (S d) r
-  | SilentExit :: r => match d with O => false | S d' => brackets_ok_from d' r end
+  | SilentExit :: r | SilentExitExc :: r => match d with O => false | S d' => brackets_ok_from d' r end
   | _ :: r => brackets_ok_from d r
   end.
 Definition brackets_ok (p : list op) : bool := brackets_ok_from 0 p.
@@ -214,7 +214,7 @@ Fixpoint flag_scan (d : nat) (rp : list op) : bool :=
   | [] => false
   | SetSilent b :: r => match d with O => b | S _ => flag_scan d r end
   | SilentEnter :: r => match d with O => true | S d' => flag_scan d' r end
-  | SilentExit :: r => flag_scan (S d) r
+  | SilentExit :: r | SilentExitExc :: r => flag_scan (S d) r     (* a block is closed however it is left *)
   | _ :: r => flag_scan d r
   end.
 Definition silenced_all (p : list op) : bool := flag_scan 0 (rev p).
@@ -224,10 +224,10 @@ Definition silenced_all (p : list op) : bool := flag_scan 0 (rev p).
 Inductive balanced : list op -> Prop :=
 | bal_nil : balanced []
 | bal_other o b : is_enter o = false -> is_exit o = false -> balanced b -> balanced (o :: b)
-| bal_block b1 b2 : balanced b1 -> balanced b2 -> balanced (SilentEnter :: b1 ++ SilentExit :: b2).
+| bal_block b1 x b2 : is_exit x = true -> balanced b1 -> balanced b2 -> balanced (SilentEnter :: b1 ++ x :: b2).
 
 Definition is_flag_op (o : op) : bool :=
-  match o with SetSilent _ | SilentEnter | SilentExit => true | _ => false end.
+  match o with SetSilent _ | SilentEnter | SilentExit | SilentExitExc => true | _ => false end.
 
 (* what an emit does once silencing is decided: the body of [spec_emit] *)
 Definition emit_body (reg : list entry) (ev snd : Z) (a : Arg) (single : option bool) : out Arg Res :=
